@@ -669,14 +669,21 @@ func OrderTokens(e b6.Expression) []b6.Expression {
 }
 
 func Simplify(expression b6.Expression, functions SymbolArgCounts) b6.Expression {
+	return simplify(expression, functions, nil)
+}
+
+// simplify expression, given the names of the arguments of the lambdas
+// that enclose it. Those shadow global functions of the same name, which
+// therefore can't be reasoned about within them.
+func simplify(expression b6.Expression, functions SymbolArgCounts, bound []string) b6.Expression {
 	if expression.AnyExpression == nil {
 		return expression
 	}
 	switch e := expression.AnyExpression.(type) {
 	case b6.CallExpression:
-		return simplifyCall(expression, functions)
+		return simplifyCall(expression, functions, bound)
 	case b6.LambdaExpression:
-		return simplifyLambda(expression, functions)
+		return simplifyLambda(expression, functions, bound)
 	case b6.QueryExpression:
 		expression.AnyExpression = b6.QueryExpression{
 			Query: simplifyQuery(e.Query),
@@ -686,48 +693,87 @@ func Simplify(expression b6.Expression, functions SymbolArgCounts) b6.Expression
 	return expression
 }
 
-func simplifyCall(expression b6.Expression, functions SymbolArgCounts) b6.Expression {
+func isBound(symbol b6.SymbolExpression, bound []string) bool {
+	for _, b := range bound {
+		if b == string(symbol) {
+			return true
+		}
+	}
+	return false
+}
+
+// usesAnyOf returns true if expression refers to one of the given names,
+// other than through a lambda argument of its own with the same name.
+func usesAnyOf(expression b6.Expression, names []string) bool {
+	switch e := expression.AnyExpression.(type) {
+	case b6.SymbolExpression:
+		return isBound(e, names)
+	case b6.CallExpression:
+		if usesAnyOf(e.Function, names) {
+			return true
+		}
+		for _, arg := range e.Args {
+			if usesAnyOf(arg, names) {
+				return true
+			}
+		}
+	case b6.LambdaExpression:
+		remaining := make([]string, 0, len(names))
+		for _, name := range names {
+			if !isBound(b6.SymbolExpression(name), e.Args) {
+				remaining = append(remaining, name)
+			}
+		}
+		return len(remaining) > 0 && usesAnyOf(e.Expression, remaining)
+	}
+	return false
+}
+
+func simplifyCall(expression b6.Expression, functions SymbolArgCounts, bound []string) b6.Expression {
 	call := expression.AnyExpression.(b6.CallExpression)
-	call.Function = Simplify(call.Function, functions)
+	call.Function = simplify(call.Function, functions, bound)
 
 	for i, arg := range call.Args {
-		call.Args[i] = Simplify(arg, functions)
+		call.Args[i] = simplify(arg, functions, bound)
 	}
 	expression.AnyExpression = call
 
-	if e, ok := simplifyCallWithNoArguments(expression, functions); ok {
+	if e, ok := simplifyCallWithNoArguments(expression, functions, bound); ok {
 		return e
 	}
-	if e, ok := simplifyCallBuildingQuery(expression, functions); ok {
+	if e, ok := simplifyCallBuildingQuery(expression, functions, bound); ok {
 		return e
 	}
 	return expression
 }
 
-func simplifyCallWithNoArguments(expression b6.Expression, functions SymbolArgCounts) (b6.Expression, bool) {
+func simplifyCallWithNoArguments(expression b6.Expression, functions SymbolArgCounts, bound []string) (b6.Expression, bool) {
 	// Calling a function that expects arguments with no arguments is
 	// semantically equivilent to just using that function.
 	call := expression.AnyExpression.(b6.CallExpression)
 	if len(call.Args) == 0 {
 		if symbol, ok := call.Function.AnyExpression.(b6.SymbolExpression); ok {
+			if isBound(symbol, bound) {
+				return expression, false
+			}
 			n, ok := functions.ArgCount(symbol)
 			v, _ := functions.IsVariadic(symbol)
 			if ok && n > 0 && !v {
-				return Simplify(call.Function, functions), true
+				return simplify(call.Function, functions, bound), true
 			}
 		} else if lambda, ok := call.Function.AnyExpression.(b6.LambdaExpression); ok {
 			if len(lambda.Args) == 0 {
-				return Simplify(lambda.Expression, functions), true
+				return simplify(lambda.Expression, functions, bound), true
 			}
 		}
 	}
 	return expression, false
 }
 
-func simplifyCallBuildingQuery(expression b6.Expression, functions SymbolArgCounts) (b6.Expression, bool) {
+func simplifyCallBuildingQuery(expression b6.Expression, functions SymbolArgCounts, bound []string) (b6.Expression, bool) {
 	call := expression.AnyExpression.(b6.CallExpression)
 	symbol, ok := call.Function.AnyExpression.(b6.SymbolExpression)
-	if !ok {
+	if !ok || isBound(symbol, bound) {
 		return b6.Expression{}, false
 	}
 	switch s := string(symbol); s {
@@ -735,19 +781,19 @@ func simplifyCallBuildingQuery(expression b6.Expression, functions SymbolArgCoun
 		if e, ok := simplifyCallBuildingAndOrOrQuery(s, call); ok {
 			simplified := expression
 			simplified.AnyExpression = e
-			return Simplify(simplified, functions), true
+			return simplify(simplified, functions, bound), true
 		}
 	case "typed":
 		if e, ok := simplifyCallBuildingTypedQuery(s, call); ok {
 			simplified := expression
 			simplified.AnyExpression = e
-			return Simplify(simplified, functions), true
+			return simplify(simplified, functions, bound), true
 		}
 	case "keyed", "tagged":
 		if e, ok := simplifyCallBuildingKeyedTaggedQuery(s, call); ok {
 			simplified := expression
 			simplified.AnyExpression = e
-			return Simplify(simplified, functions), true
+			return simplify(simplified, functions, bound), true
 		}
 	}
 	return b6.Expression{}, false
@@ -823,9 +869,11 @@ func simplifyCallBuildingTypedQuery(symbol string, call b6.CallExpression) (b6.A
 	return nil, false
 }
 
-func simplifyLambda(expression b6.Expression, functions SymbolArgCounts) b6.Expression {
+func simplifyLambda(expression b6.Expression, functions SymbolArgCounts, bound []string) b6.Expression {
 	lambda := expression.AnyExpression.(b6.LambdaExpression)
-	lambda.Expression = Simplify(lambda.Expression, functions)
+	inner := make([]string, 0, len(bound)+len(lambda.Args))
+	inner = append(append(inner, bound...), lambda.Args...)
+	lambda.Expression = simplify(lambda.Expression, functions, inner)
 	// '{a -> area a}' is semantically equivalent to 'area'
 	if call, ok := lambda.Expression.AnyExpression.(b6.CallExpression); ok && len(lambda.Args) > 0 {
 		i := 0
@@ -841,14 +889,14 @@ func simplifyLambda(expression b6.Expression, functions SymbolArgCounts) b6.Expr
 		}
 		if i > 0 {
 			if i == len(call.Args) {
-				return Simplify(call.Function, functions)
+				return simplify(call.Function, functions, bound)
 			}
 			s := expression
 			s.AnyExpression = b6.CallExpression{
 				Function: call.Function,
 				Args:     call.Args[i:len(call.Args)],
 			}
-			return simplifyCall(s, functions)
+			return simplifyCall(s, functions, bound)
 		}
 	}
 	return expression
